@@ -7,6 +7,7 @@ package main
 
 import (
 	"context"
+	"os"
 	"errors"
 	"fmt"
 	"sort"
@@ -37,10 +38,14 @@ type params struct {
 	Store  string // default | payload
 	Narrow bool   // deviations only in the ack-wait path (withAckTimeoutCh, readResultLoop, readAckLoop): affordable with two deviations
 	SlowResume bool // the broker answers resume requests after 5 s
+	Burst  int    // this many chunks stay unacknowledged; the broker then sends their results as single acks back to back and closes the link right behind them
 	Silent bool   // the failure is a broker that goes silent (message dropped, nothing answered any more): the keep-alive detects the outage
 }
 
 func (p params) name() string {
+	if p.Burst > 0 {
+		return fmt.Sprintf("%s/ackburst%d-then-eof/P%d", p.Policy, p.Burst, p.P)
+	}
 	if p.Narrow {
 		return fmt.Sprintf("%s/%s/F%d/P%d/%s/ackwait", p.Policy, strings.Join(p.Ops, ","), p.F, p.P, p.Store)
 	}
@@ -82,7 +87,20 @@ func scenarios(tier string) []vlib.Scenario {
 	// outages detected by the keep-alive (the broker goes silent) instead of by a read error
 	add(params{Policy: "immediate", Ops: []string{"wA1", "wB1"}, F: 1, P: 0, Store: "default", Silent: true})
 	add(params{Policy: "immediate", Ops: []string{"wA1", "wB1"}, F: 1, P: 1, Store: "default", Silent: true})
+	// a burst of acknowledgements with the end of the link right behind it: the stream's ack path is still
+	// forwarding when the run context ends (the hand-over queues of the stream hold 8)
+	burst := func(n, p int) params {
+		ops := []string{}
+		for i := 0; i < n; i++ {
+			ops = append(ops, "wA1")
+		}
+		return params{Policy: "immediate", Ops: append(ops, "Z", "wB1"), Burst: n, P: p, Store: "default"}
+	}
+	add(burst(12, 0))
+	add(burst(12, 1))
 	if tier == "thorough" {
+		add(burst(12, 2))
+		add(burst(20, 1))
 		for i, h := range hs {
 			h.F, h.Store = 2, "default"
 			if i > 1 {
@@ -105,6 +123,12 @@ func config(sc vlib.Scenario, tier string) vsched.Config {
 	cfg.Budget[vsched.BudP] = p.P
 	cfg.Budget[vsched.BudF] = p.F
 	cfg.Scope = func(site string) bool {
+		if dbg := os.Getenv("C02_SCOPE"); dbg != "" {
+			return strings.Contains(site, dbg) // debugging aid
+		}
+		if p.Burst > 0 {
+			return strings.Contains(site, "ackOrDone") || strings.Contains(site, "readAckLoop") || strings.Contains(site, "readAliasLoop") || strings.Contains(site, "readResultLoop")
+		}
 		if p.Narrow {
 			return strings.Contains(site, "withAckTimeoutCh") || strings.Contains(site, "readResultLoop") || strings.Contains(site, "readAckLoop") || strings.Contains(site, "ackOrDone")
 		}
@@ -136,6 +160,7 @@ type world struct {
 	ackHook  []iscp.UpstreamChunkResult
 	closed   []error
 	resumed  int
+	resumedAtSettle, reconnAtSettle int
 	disc     int
 	reconn   int
 	closeErr error
@@ -190,6 +215,32 @@ func (w *world) script() *sim.Script {
 	}
 	if bgClose {
 		s.AckDelay = 5 * time.Second
+	}
+	if w.p.Burst > 0 {
+		s.AckChunk = func(c *sim.BConn, u *sim.UpStream, ch *sim.ChunkRec) sim.AckMode {
+			if c.Idx == 0 {
+				return sim.AckHold
+			}
+			return sim.AckNow
+		}
+		s.ReleaseHeld = func(b *sim.Broker, c *sim.BConn, u *sim.UpStream) {
+			if c.Idx > 0 {
+				b.SendAck(c, u, u.Held, nil)
+				u.Held = nil
+				return
+			}
+			if len(u.Held) < w.p.Burst {
+				return
+			}
+			held := u.Held
+			u.Held = nil
+			for _, r := range held {
+				b.SendAck(c, u, []*message.UpstreamChunkResult{r}, nil)
+			}
+			w.cuts++
+			b.CloseConn(c) // everything sent is delivered, then the link ends
+		}
+		return s
 	}
 	s.AckChunk = func(c *sim.BConn, u *sim.UpStream, ch *sim.ChunkRec) sim.AckMode {
 		n := 2
@@ -318,6 +369,7 @@ func (w *world) main() {
 	if !w.p.SlowResume {
 		vsched.Sleep(10*time.Second, "h:settle")
 	}
+	w.resumedAtSettle, w.reconnAtSettle = w.resumed, w.reconn
 	w.phase = "close"
 	if w.closeStarted {
 		vsched.WaitUntil("closer-done", func() bool { return w.closeDone })
@@ -383,6 +435,17 @@ func (w *world) oracle(v *vlib.Verdict, res *vsched.Result) {
 		}
 	}
 	dev := res.Used[vsched.BudP] > 0
+	// the connection came back (10 s before the settle point at the latest) and the stream was not reported closed:
+	// it must have been resumed - writes are not even accepted by a stream that stays behind
+	if w.p.Burst > 0 && w.reconnAtSettle > 0 && w.resumedAtSettle == 0 && !reportedClosed {
+		where := ""
+		for _, t := range res.Alive {
+			if t.Lib && strings.Contains(t.Site, "(*Upstream)") {
+				where += " " + t.Site + "/" + t.Op
+			}
+		}
+		v.Fail("C02.resume", fmt.Sprintf("never-resumed/dev=%v", dev), "the connection was re-established (%d reconnects) but the upstream was never resumed and never reported closed; stream threads still parked:%s", w.reconnAtSettle, where)
+	}
 	// ground truth: what the send hook saw
 	truth := map[uint32]string{}
 	for _, h := range w.sendHook {
